@@ -436,6 +436,25 @@ def gen_vi_ops(rng, text=None):
     return ks
 
 
+def cx_esc_cases(rng, count):
+    """emacs, NO key sequence timeout: the second key of C-x (and the key read by a search / completion) is read with `a single
+    ESC aborts`: a lone ESC that ends a chunk is that key at once, it is not glued to whatever arrives later"""
+    cases = []
+    for i in range(count):
+        pre = list(rand_text(rng, 0, 3, ["a", "b", "é"]))
+        sub = [["C-x", "Esc"], ["C-x", "Esc"], ["C-r", "Esc"], ["C-x", "C-g"], ["M-2", "C-x", "Esc"]][i % 5]
+        post = rng.choice([["Enter"], ["z", "Enter"], ["C-a", "q", "Enter"], ["C-x", "C-u", "Enter"], ["Backspace", "Enter"]])
+        keys = pre + sub + post
+        chunks = [key_bytes(k) for k in pre]
+        if i % 2:
+            chunks.append(b"".join(key_bytes(k) for k in sub))     # prefix and ESC arrive together, nothing behind the ESC
+        else:
+            chunks += [key_bytes(k) for k in sub]
+        chunks += [key_bytes(k) for k in post]
+        cases.append(Case(keys, mode="emacs", history=["h1", "old"], timeout="none", prompt="> ", reads=2, chunks=chunks, cols=80, meta={}))
+    return cases
+
+
 def c01_cases(tier, seed):
     rng = random.Random(seed * 211 + 17)
     n = 6000 if tier == "thorough" else 320
@@ -448,6 +467,7 @@ def c01_cases(tier, seed):
         k = rng.randint(0, len(t))
         cases.append(Case(gen_vi_ops(rng, t), mode="vi", initial=(t[:k], t[k:]), timeout=0, prompt="> ",
                           meta={"indent_size": rng.choice([1, 3, 4, 8, 33, 40])} if rng.random() < 0.4 else {}))
+    cases += cx_esc_cases(rng, max(6, n // 40))
     # every operator with every character search (to / till, forward / backward), on characters that do occur, then put / undo
     for op in ("d", "y", "c"):
         for cs in ("f", "t", "F", "T"):
@@ -566,9 +586,12 @@ def c13_cases(tier, seed):
     cases = []
     for _ in range(n):
         mode = rng.choice(["emacs", "emacs", "vi"])
-        vk = rng.choice(["script", "script", "brackets"])
+        vk = rng.choice(["script", "script", "brackets", "scriptreq", "scriptinc"])
         hist = [rng.choice(bad_hist) for _ in range(rng.choice([0, 0, 2, 3]))]
         keys = []
+        if rng.random() < 0.3:
+            # Enter on the EMPTY text (the first key of the read, or after the text was deleted again)
+            keys += rng.choice([[], ["a", "Backspace"]]) + [rng.choice(["Enter", "C-j", "C-m"])]
         for _ in range(rng.randint(2, 14)):
             r = rng.random()
             if r < 0.10 and hist:
@@ -617,6 +640,18 @@ CAND_POOL = ["foo", "foobar", "foo bar", "fo", "f", "food", "é", "éa", "日本
 WIDE_CANDS = ["foo_" + "x" * 28, "foo_" + "y" * 15, "b" * 19, "\u65e5" * 10, "fo" + "\u00e9" * 27, "a" * 11, "foo_" + "z" * 29]
 
 
+def c14_ending_case(rng, i):
+    """the key that ENDS a completion is itself a command that reads more keys (incremental search, quoted insert, C-x pair,
+    numeric argument, character search): it is carried out as if typed outside; and a search ended by Tab starts a completion"""
+    ct = ["circular", "list"][i % 2]
+    ending = [["C-r", "c", "Enter"], ["C-r", "a", "C-r", "Right", "!"], ["C-s", "C-g", "z"], ["C-v", "C-a"], ["C-x", "C-u"], ["M-2", "x"],
+              ["C-]", "f"], ["C-r", "Tab", "Tab"], ["C-r", "f", "Tab"], ["M-2", "C-r", "o"]][i // 2 % 10]
+    typed = rng.choice(["ls fo", "fo", "cd  f", "b"])
+    tabs = ["Tab"] * rng.randint(1, 3)
+    return Case(list(typed) + tabs + ending + ["Enter", "Enter"], mode="emacs", completion=ct, cands=["foo", "foobar", "food", "bar", "baz"],
+                history=["cargo build", "foo a", "echo fa"], timeout="none", prompt="> ", cols=80)
+
+
 def c14_cases(tier, seed):
     rng = random.Random(seed * 401 + 9)
     n = 4000 if tier == "thorough" else 260
@@ -654,6 +689,8 @@ def c14_cases(tier, seed):
                 if mode == "emacs":
                     keys.append("Tab")
         keys.append("Enter")
+        if rng.random() < 0.5:
+            cases.append(c14_ending_case(rng, len(cases)))
         cases.append(Case(keys, mode=mode, completion=ct, cands=cands, initial=mk_initial(rng, 0.3, ["f", "o", " ", "b", "a", "é"]),
                           timeout=0 if mode == "vi" else rng.choice(["none", 0]), prompt=rng.choice(["> ", "日> "]),
                           cols=rng.choice([20, 12, 32, 33, 34]) if wide else rng.choice([80, 80, 30]),
@@ -668,6 +705,15 @@ def c08_cases(tier, seed):
     n = 4000 if tier == "thorough" else 260
     pool = ["abc", "xabcx", "ab", "b", "é日", "日é日", "a b,c", "foo(bar)", "ab\ncd", "zzz", "abab", "(x)", "ABC", " lead", "x"]
     cases = []
+    # a kill or a yank as the command right BEFORE the search, a kill / yank / yank-pop as the command that ENDS it: the search
+    # comes between them (no accumulation, no yank-pop), whether it found something, failed, or was aborted in between
+    for i in range(max(12, n // 16)):
+        hist = rng.sample(["hello world", "abc", "xabcx", "é日 w"], rng.randint(1, 3))
+        before = [["x", "y", "z", "C-u"], ["x", "y", "C-u", "C-y"], ["b", "a", "r", "C-a", "C-k"], ["q", " ", "r", "M-Backspace"],
+                  ["a", "b", "C-w", "C-y", "C-y"]][i % 5]
+        inside = rng.choice([["w"], ["a", "b"], [], ["z", "z"], ["b", "C-r"], ["w", "Backspace"]])
+        ending = [["M-y"], ["C-k", "C-y"], ["C-u", "C-y"], ["C-w", "C-y"], ["M-d", "C-y"], ["C-y", "M-y"], ["C-g", "M-y"], ["C-g", "C-k", "C-y"]][i % 8]
+        cases.append(Case(before + ["C-r"] + inside + ending + ["Enter"], mode="emacs", history=hist, timeout="none", prompt="> ", cols=80))
     for _ in range(n):
         mode = rng.choice(["emacs", "emacs", "emacs", "vi"])
         hist = [rng.choice(pool) for _ in range(rng.choice([0, 1, 2, 3, 4, 6]))]
@@ -727,6 +773,24 @@ def line_motion_cases(rng, count):
             keys = ["Esc", str(cnt), rng.choice(["k", "k", "-", "j"]), "i", "X", "Esc", str(rng.choice([2, 3])), rng.choice(["j", "k", "+"]), "i", "Y", "Enter"]
         cases.append(Case(keys, mode=mode, history=["h1", "h2"], initial=(t[:k], t[k:]), timeout=0 if mode == "vi" else rng.choice(["none", 0]),
                           prompt=rng.choice(["> ", "日> ", "prompt> ", ""]), cols=80))
+    # counted moves whose last steps reach (or are clamped at) an EMPTY first / last line, from every line of the text
+    for i in range(max(4, count // 4)):
+        body = [rand_text(rng, 0 if i % 3 == 0 else 1, 5, ["a", "b", " ", "é"]) for _ in range(rng.randint(2, 4))]
+        lines = body + [""] if i % 2 == 0 else [""] + body + ([""] if i % 4 == 1 else [])
+        t = "\n".join(lines)
+        line = i // 2 % len(lines)
+        start = sum(len(x) + 1 for x in lines[:line])
+        k = start + rng.randint(0, len(lines[line]))
+        cnt = rng.choice([len(lines) - 1 - line, len(lines) - 1, 2, 3, 9]) or 2
+        up = i % 2 == 1
+        mode = "emacs" if i % 3 else "vi"
+        if mode == "emacs":
+            keys = ["M-%d" % cnt, "Up" if up else "Down", "X", "M-%d" % rng.choice([2, 3, 4]), "Down" if up else "Up", "Y", "Enter"]
+        else:
+            keys = ["Esc", str(cnt), rng.choice(["k", "-"]) if up else rng.choice(["j", "+"]), "i", "X", "Esc", str(rng.choice([2, 3, 4])),
+                    rng.choice(["j", "+"]) if up else rng.choice(["k", "-"]), "i", "Y", "Enter"]
+        cases.append(Case(keys, mode=mode, history=["h1"], initial=(t[:k], t[k:]), timeout=0 if mode == "vi" else "none",
+                          prompt=rng.choice(["> ", "日> ", ""]), cols=80))
     return cases
 
 
@@ -736,6 +800,18 @@ def c07_cases(tier, seed):
     pool = ["one", "two words", "é日", "a b,c", "l1\nl2\nl3", "x", "ab\ncd", "  lead", "tail\n", "\nhead", "w" * 30, "q"]
     cases = []
     cases += line_motion_cases(rng, max(8, n // 20))
+    # a sub-loop (incremental search, circular completion, aborted or accepted) entered WHILE browsing: the line being typed
+    # must still come back below the newest entry
+    for i in range(max(12, n // 20)):
+        hist = rng.sample(["one", "two one", "onto", "none", "é日 on"], rng.randint(2, 4))
+        typed = rng.choice(["", "ty", "t é", "on"])
+        ups = rng.randint(1, len(hist))
+        sub = [["C-r", "o", "C-g"], ["C-r", "C-g"], ["C-r", "o", "n", "C-r", "C-g"], ["C-s", "n", "C-g"], ["C-r", "o", "Right"],
+               ["Tab", "C-g"], ["Tab", "Tab", "C-g"], ["Tab", "Tab", "Tab", "Esc"], ["Tab", "x"]][i % 9]
+        downs = rng.choice([["Down"] * (ups + 1), ["M->"], ["C-n"] * ups, ["Down"] * ups + ["Up", "Down", "Down"]])
+        keys = list(typed) + ["Up"] * ups + sub + downs + rng.choice([[], ["z"], ["C-_"]]) + ["Enter"]
+        cases.append(Case(keys, mode="emacs", history=hist, cands=["one", "onto", "on2"] if sub[0] == "Tab" else None,
+                          timeout=0 if "Esc" in sub else "none", prompt="> ", cols=80))
     for _ in range(n):
         mode = rng.choice(["emacs", "emacs", "vi"])
         hist = [rng.choice(pool) for _ in range(rng.choice([0, 1, 2, 3, 5]))]
@@ -867,6 +943,26 @@ def c05_cases(tier, seed):
         keys.append("Enter")
         cases.append(Case(keys, mode="vi", history=hist, cands=cands, initial=mk_initial(rng, 0.3, ["a", "b", "o", " "]),
                           completion=rng.choice(["circular", "list"]), timeout="none", prompt="> "))
+    # vi: separate replace-char / overwrite / x commands on NEIGHBOURING characters with only motions in between, then undos: each
+    # command is its own undo unit
+    for i in range(max(8, n // 20)):
+        t = rng.choice(["abcdef", "aébc日d", "ab cd ef"])
+        cmd = lambda: rng.choice([["r", rng.choice("-+é")], ["r", rng.choice("-+é")], [rng.choice("23"), "r", "x"], ["x"], ["~"], ["R", "z", "Esc"]])
+        keys = ["Esc", "0"] + ["l"] * rng.randint(0, 2)
+        for _ in range(rng.randint(2, 4)):
+            keys += cmd() + rng.choice([["l"], ["l"], [], ["h"], ["l", "l"]])
+        keys += rng.choice([["u"], ["u", "u"], ["u", "u", "u"], ["C-_"], ["u", "l", "u"]]) + ["Enter"]
+        cases.append(Case(keys, mode="vi", initial=(t, ""), timeout=0, prompt="> "))
+    # a sub-loop (search / completion) that showed SHORTER texts and was aborted or accepted, then more undos than it made changes
+    for i in range(max(8, n // 20)):
+        typed = rng.choice(["abcdef", "long text", "日本語 text", "on a b c d"])
+        hist = rng.sample(["ls", "a", "e", "t x", "日", "on"], 3)
+        sub = [[rng.choice(["C-r", "C-s"])] + list(rng.choice(["l", "a", "e", "t", "日", "t x", "ls"])) + rng.choice([[], ["C-r"], ["Backspace"]]),
+               ["C-a", "Right", "Right", "Tab"] + ["Tab"] * rng.randint(0, 2)][i % 2]
+        end = rng.choice([["C-g"], ["Esc"], ["Left"], ["C-g"]])
+        undo = rng.choice([["C-_"] * rng.randint(1, 5), ["M-3", "C-_"], ["M-9", "C-_"], ["C-x", "C-u", "C-_", "C-_"]])
+        cases.append(Case(list(typed) + sub + end + undo + ["Enter"], mode="emacs", history=hist, cands=["on", "o", "onward"] if i % 2 else None,
+                          timeout=0, prompt="> "))
     for _ in range(n):
         mode = rng.choice(["emacs", "emacs", "vi"])
         hist = [rng.choice(HIST_POOL) for _ in range(rng.choice([0, 1, 2, 3]))]
@@ -1085,6 +1181,16 @@ def c17_cases(tier, seed):
                  validator=("brackets" if helper and rng.random() < 0.3 else "none"),
                  completion=rng.choice(["circular", "list"]), cols=rng.choice([80, 80, 20]), meta=meta)
         cases.append(c)
+    cases += cx_esc_cases(rng, max(6, n // 50))
+    # an incremental search that found a SHORTER entry, aborted, then more undos than the search made changes (also with a count)
+    for k in range(max(6, n // 40)):
+        typed = rng.choice(["abcdef", "long text", "日本語 text", "abcdefgh ij"])
+        hist = rng.sample(["ls", "a", "e", "t x", "日"], 3)
+        keys = list(typed) + [rng.choice(["C-r", "C-s", "C-r"])] + list(rng.choice(["l", "a", "e", "t", "日", "t x", "ls"])) + \
+            rng.choice([[], ["C-r"], ["Backspace"]]) + [rng.choice(["C-g", "Esc"])] + \
+            rng.choice([["C-_"] * rng.randint(1, 5), ["M-3", "C-_"], ["M-9", "C-_"], ["C-x", "C-u", "C-_", "C-_"]]) + ["Enter", "Enter"]
+        chunks = [key_bytes(kk) for kk in keys]
+        cases.append(Case(keys, mode="emacs", history=hist, timeout=0, prompt="> ", reads=2, chunks=chunks, cols=80, meta={}))
     # list-mode completion over candidates that part INSIDE a multi-byte character (the common prefix is cut back to a boundary)
     for k in range(max(3, n // 60)):
         cands = rng.choice([["日本語", "日月"], ["\U0001F600a", "\U0001F601b", "\U0001F600"], ["é日本", "é日月x", "é日"]])
